@@ -29,6 +29,16 @@ Proof. exact tags_at_In. Qed.
 Theorem c02_no_tag_no_version : forall r f, (forall c, In c (g_commits r) -> ~ valid_at r f (c_id c)) -> git_vars r f = None.
 Proof. exact no_valid_tag_no_version. Qed.
 
+(* the executable ancestor set the model uses for distance is exactly reachability through parent links; hence distance = number of
+   commits reachable from HEAD (the listed ones) that are NOT reachable from the tagged commit *)
+Theorem c02_ancestors_is_reachability : forall r c, topo_ok (g_commits r) = true -> forall x, In x (ancestors r c) <-> reach r c x.
+Proof. exact ancestors_is_reach. Qed.
+
+Theorem c02_distance : forall r c, topo_ok (g_commits r) = true ->
+  distance r c = N.of_nat (length (filter (fun x => negb (mem (c_id x) (ancestors r c))) (g_commits r))) /\
+  forall x, In x (g_commits r) -> (mem (c_id x) (ancestors r c) = true <-> reach r c (c_id x)).
+Proof. exact distance_spec. Qed.
+
 Check c02_nearest_valid_tag.
 
 (* non-vacuity: main: A(v1.0.0) - B ; branch: A - C(v2.0.0) ; HEAD = merge M of B and C: the base is v2.0.0 on C, distance 2 (M and B) *)
@@ -46,3 +56,5 @@ Print Assumptions c02_nearest_valid_tag.
 Print Assumptions c02_highest_version.
 Print Assumptions c02_candidates.
 Print Assumptions c02_no_tag_no_version.
+Print Assumptions c02_ancestors_is_reachability.
+Print Assumptions c02_distance.
